@@ -256,7 +256,9 @@ impl Execute for ast::CompoundList {
                     writeln!(params.stderr(shell), "{job_formatted}")?;
                 }
 
+                // The exit status of an asynchronous list is zero.
                 result = ExecutionResult::success();
+                shell.set_last_exit_status(0);
             } else {
                 result = ao_list.execute(shell, params).await?;
 
